@@ -313,8 +313,10 @@ func (c *V2) Do(op Op) (out Outcome) {
 		for _, ch := range op.Chg {
 			u := v2types.GlobalSecondaryIndexUpdate{}
 			if ch.Create != nil {
-				ad.add(ch.Create.Hash, ch.Create.HashT)
-				ad.add(ch.Create.Range, ch.Create.RangeT)
+				if !op.NoDefs {
+					ad.add(ch.Create.Hash, ch.Create.HashT)
+					ad.add(ch.Create.Range, ch.Create.RangeT)
+				}
 				u.Create = &v2types.CreateGlobalSecondaryIndexAction{IndexName: aws.String(ch.Create.Name),
 					KeySchema:  v2KeySchema(ch.Create.Hash, ch.Create.Range),
 					Projection: &v2types.Projection{ProjectionType: v2types.ProjectionTypeAll}, ProvisionedThroughput: v2Throughput()}
@@ -326,6 +328,9 @@ func (c *V2) Do(op Op) (out Outcome) {
 				u.Update = &v2types.UpdateGlobalSecondaryIndexAction{IndexName: aws.String(ch.Update), ProvisionedThroughput: v2Throughput()}
 			}
 			in.GlobalSecondaryIndexUpdates = append(in.GlobalSecondaryIndexUpdates, u)
+		}
+		for _, d := range op.Defs {
+			ad.add(d[0], d[1])
 		}
 		for _, n := range ad.order {
 			in.AttributeDefinitions = append(in.AttributeDefinitions, v2types.AttributeDefinition{AttributeName: aws.String(n), AttributeType: v2types.ScalarAttributeType(ad.typ[n])})
